@@ -79,7 +79,13 @@ def key_comp(L, name, n):
     return b
 
 
-def slashes(L, lo=0, hi=2):
+def slashes(L, lo=0, hi=2, shape=None):
+    if shape is not None and isinstance(shape.get('sl'), int) and not isinstance(shape.get('sl'), bool):
+        hi = shape['sl']          # longer runs of extra slashes
+    return _slashes(L, lo, hi)
+
+
+def _slashes(L, lo=0, hi=2):
     return [0x2F] * (lo + L.ctx.choice(hi - lo + 1, 'sl'))
 
 
@@ -107,7 +113,7 @@ def h_spelling(L, T, shape):
             if len(sg) == 0:
                 raise Discard()
             segs.append(sg)
-            s += (slashes(L, 0, 1) if SLASH else []) + spell(L, 'ns%d' % i, sg, tt(b'@?#') & ~raw_ok) + [0x2F]
+            s += (slashes(L, 0, 1, shape) if SLASH else []) + spell(L, 'ns%d' % i, sg, tt(b'@?#') & ~raw_ok) + [0x2F]
         j = []
         for i, sg in enumerate(segs):
             if i:
@@ -165,7 +171,7 @@ def h_spelling(L, T, shape):
                 raise Discard()
             segs.append(sg)
             if i:
-                s += [0x2F] + (slashes(L, 0, 1) if SLASH else [])
+                s += [0x2F] + (slashes(L, 0, 1, shape) if SLASH else [])
             d = L.ctx.choice(3, 'dot') if shape.get('dots') else 0
             if d:
                 s += [0x2E] * d + [0x2F]
@@ -315,6 +321,8 @@ def queries(tier):
         # one free component in the full context
         dict(F, ty=2), dict(F, ns=[1]), dict(F, name=1), dict(F, ver=1), dict(F, quals=[(1, 'v')]), dict(F, quals=[('k', 1)]), dict(F, sub=[1]),
         dict(F, name=1, sl=True, dots=True),
+        # longer runs of extra slashes between concrete segments
+        {'ns': ['a', 'b', 1], 'name': 'n', 'sl': 3}, {'name': 'n', 'sub': ['a', 'b'], 'sl': 3},
     ]
     if th:
         shapes += [{'ns': [2, 2], 'name': 'n', 'sl': True}, {'name': 2, 'ver': 2}, {'name': 'n', 'quals': [(1, 1), (1, 1)]}, {'name': 'n', 'quals': [(2, 2)]},
@@ -339,6 +347,8 @@ def queries(tier):
                 addc('String', fill(pr, a, b))
     for n in lens(4 if th else 3, 1):
         addc('String', ['pkg:t/n?checksum=', ('hole', 'h', n)])
+    for parts in STRUCT_TEMPLATES(1 if th else 0) + LONG_TEMPLATES():
+        addc('String', parts)
     for ty in PT_VARIANTS:
         for n in lens(3 if th else 2, 1):
             addc('Purl', ['pkg:%s/ns/' % ty, ('hole', 'h', n)])
